@@ -7,43 +7,57 @@ use crate::{end_reached, returned};
 use serde::Deserialize;
 use toodee::*;
 
-/// Dimension values of interest; one dimension is drawn from this table, the other is free.
-fn table_dim() -> u64 {
-    let s = nd::u8_();
-    nd::assume(s < 10);
-    match s {
-        0 => 0,
-        1 => 1,
-        2 => 2,
-        3 => 3,
-        4 => 4,
-        5 => 5,
-        6 => 1u64 << 32,
-        7 => 1u64 << 63,
-        8 => u64::MAX,
-        _ => (1u64 << 63) + 1,
+const BIG: [u64; 4] = [1u64 << 32, 1u64 << 63, u64::MAX, (1u64 << 63) + 1];
+
+/// A dimension value. dimsel = 0: small symbolic (0..=6). Otherwise one dimension is the concrete
+/// constant BIG[(dimsel-1) % 4] and the other is an unconstrained u64 (constant x symbolic keeps the
+/// 64-bit product tractable): dimsel 1..=4 -> num_cols constant, 5..=8 -> num_rows constant.
+fn dim_val(is_cols: bool, dimsel: u8) -> u64 {
+    if dimsel == 0 {
+        let v = nd::u64_();
+        nd::assume(v <= 6);
+        v
+    } else {
+        let constant_is_cols = dimsel <= 4;
+        if is_cols == constant_is_cols {
+            BIG[((dimsel - 1) % 4) as usize]
+        } else {
+            nd::u64_()
+        }
     }
 }
 
-fn any_val(seq_ok: bool, free_dim: bool) -> Val {
-    let k = nd::u8_();
-    nd::assume(k < 6);
-    match k {
-        0 => Val::U64(if free_dim { nd::u64_() } else { table_dim() }),
-        1 => Val::Neg(-1 - (nd::u8_() as i64)),
-        2 => Val::Null,
-        3 => Val::Str,
-        4 => Val::Seq(nd::upto(6)),
-        _ => Val::BadSeq,
+/// Field values. `bad` (concrete per harness) makes exactly one field ill-typed:
+/// 0 none, 1 num_cols negative, 2 num_rows null, 3 data has a wrong element, 4 data null,
+/// 5 num_cols a string, 6 data a number, 7 num_rows negative
+fn dim_field(is_cols: bool, dimsel: u8, bad: u8) -> Val {
+    if is_cols && bad == 1 {
+        Val::Neg(-1 - (nd::u8_() as i64))
+    } else if is_cols && bad == 5 {
+        Val::Str
+    } else if !is_cols && bad == 2 {
+        Val::Null
+    } else if !is_cols && bad == 7 {
+        Val::Neg(-1 - (nd::u8_() as i64))
+    } else {
+        Val::U64(dim_val(is_cols, dimsel))
+    }
+}
+
+fn data_field(datalen: usize, bad: u8) -> Val {
+    match bad {
+        3 => Val::BadSeq,
+        4 => Val::Null,
+        6 => Val::U64(3),
+        _ => Val::Seq(datalen),
     }
 }
 
 /// `pattern` is the key sequence of the document, as digits: 0 = num_cols, 1 = num_rows, 2 = data,
 /// 3 = unknown key (so subsets, orders, duplicates and unknown fields are all just patterns).
-/// Values are symbolic: any of {u64, negative, null, string, array of 0..=6 ints, array with a
-/// wrong element}; of the (first) num_cols / num_rows values one is unconstrained and the other
-/// comes from the constant table (keeps the 64x64-bit product tractable); `free_cols` says which.
-pub fn document(pattern: u32, len: usize, free_cols: bool) {
+/// Dimension values and data contents are symbolic (`dimsel` picks the dimension domain); the data
+/// length, the ill-typed field (if any) and the key-delivery mode are concrete per harness.
+pub fn document(pattern: u32, len: usize, dimsel: u8, datalen: usize, bad: u8, mode: u8) {
     let mut doc = Doc::empty();
     doc.n = len;
     let mut p = pattern;
@@ -65,14 +79,12 @@ pub fn document(pattern: u32, len: usize, free_cols: bool) {
             _ => Key::Unknown,
         };
         doc.vals[i] = match d {
-            0 => any_val(true, free_cols),
-            1 => any_val(true, !free_cols),
-            _ => any_val(true, false),
+            0 => dim_field(true, dimsel, bad),
+            1 => dim_field(false, dimsel, bad),
+            _ => data_field(datalen, bad),
         };
         i += 1;
     }
-    let mode = nd::u8_();
-    nd::assume(mode < 3);
     let res: Result<TooDee<u8>, E> = TooDee::<u8>::deserialize(DocDe { doc: &doc, mode });
     // (no panic anywhere: every panic-class check in the callee must pass)
     if let Ok(t) = res {
